@@ -123,10 +123,13 @@ func (r *SeekPlanReader) Seek(offset int64, whence int) (int64, error) {
 
 // FaultReader delivers Data[:K] and then fails with ErrInjected. With
 // WithData the error accompanies the last good bytes. Chunks as in PlanReader.
+// With OneShot the fault is reported exactly once (alone, with no bytes);
+// afterwards the reader carries on with Data[K:] and ends with io.EOF.
 type FaultReader struct {
 	Data      []byte
 	K         int
 	WithData  bool
+	OneShot   bool
 	Chunks    []int
 	Delivered bool // the fault was actually returned to the caller
 	off       int
@@ -137,7 +140,14 @@ func (r *FaultReader) Read(p []byte) (int, error) {
 	if len(p) == 0 {
 		return 0, nil
 	}
-	if r.off >= r.K {
+	limit := r.K
+	if r.OneShot && r.Delivered {
+		limit = len(r.Data)
+		if r.off >= limit {
+			rt.Progress.Add(1)
+			return 0, io.EOF
+		}
+	} else if r.off >= r.K {
 		if !r.Delivered {
 			rt.Progress.Add(1)
 		}
@@ -152,12 +162,12 @@ func (r *FaultReader) Read(p []byte) (int, error) {
 		}
 	}
 	r.calls++
-	if n > r.K-r.off {
-		n = r.K - r.off
+	if n > limit-r.off {
+		n = limit - r.off
 	}
 	copy(p, r.Data[r.off:r.off+n])
 	r.off += n
-	if r.WithData && r.off == r.K {
+	if r.WithData && !r.OneShot && r.off == r.K {
 		r.Delivered = true
 		return n, ErrInjected
 	}
